@@ -17,6 +17,17 @@ CLAIMED = {
             "table width (R3); carry/signed-carry/signed-borrow conditions equal the P-Code truth tables (R4); each arm is the apint primitive of its mnemonic with P-Code operand "
             "order (R5); operator traits delegate correctly (R6). A violated clause is a wrong folded value for some operand pair; the numeric behaviour of apint itself is trusted.",
             "3/C01", "apint::Int::is_positive == !is_negative (sign bit unset), read from apint 0.2 source"),
+    "C19": ("THIR condition extraction + symbolic normalisation; one-sided/inclusive boundary comparison rule with sibling cross-check; flag/name agreement; constructor field provenance",
+            "Decides boundary, flag and byte-order agreement of the global-memory queries: every containment test of a point against a segment is `base <= p < base+len` (R1), "
+            "read() yields unknown content exactly under write_flag and the *_writeable/*_readable queries return the like-named flag (R2), bytes are reversed iff little endian and "
+            "accumulated most-significant first (R3), MemorySegment constructors fill each flag from the same permission (R4). A violated clause mis-attributes boundary addresses "
+            "or flags for some segment layout; the byte contents for a given image are not decided.",
+            "3/C19", ""),
+    "C20": ("regex literal read from THIR and parsed with the repo's regex-syntax crate; finite-language/table agreement; leftmost-first matcher over the HIR probing every conversion token and the %% escape",
+            "Decides agreement between the format-specifier grammar (the regex literal), the Datatype::from string table, the size table and the parameter-location table (R1), "
+            "longest-length-form priority and rejection of long/long long/long double (R2), the `%%` escape (R3), char promotion (R4) and that each of the 2025 conversion tokens "
+            "flag x width x precision x conversion is matched whole with the right capture (R5). Register/stack placement of the parameters is not decided.",
+            "3/C20", "regex crate = leftmost-first semantics over regex-syntax HIR"),
 }
 
 NOT_APPLICABLE = {
